@@ -404,5 +404,37 @@ def rule_a6(repo):
     return res
 
 
+def rule_a7(repo):
+    """A loop over the items of a proof that rewrites their citations must descend into the nested
+    subproof of each item: steps inside a later subproof may cite lines of the enclosing levels."""
+    res = RuleResult('C13.A7', 'a traversal that rewrites the citations of proof items reaches the items of nested subproofs', floor=1)
+    for rel in (METHOD, PROOF):
+        m = repo.module(rel)
+        for f in m.all_funcs:
+            for loop in walk_no_nested(f.node, include_root=False):
+                if not (isinstance(loop, ast.For) and isinstance(loop.target, ast.Name)):
+                    continue
+                itp = path_of(loop.iter.value if isinstance(loop.iter, ast.Subscript) else loop.iter) or ''
+                if not itp.endswith('.items'):
+                    continue
+                v = loop.target.id
+                rewrites = [n for st in loop.body for n in ast.walk(st) if isinstance(n, ast.Assign) and
+                            any(path_of(t) == v + '.prevs' for t in n.targets)]
+                if not rewrites:
+                    continue
+                descends = False
+                for st in loop.body:
+                    for n in ast.walk(st):
+                        if isinstance(n, ast.Call) and any((path_of(a) or '').startswith(v + '.subproof') for a in n.args):
+                            descends = True
+                        if isinstance(n, ast.For) and (path_of(n.iter) or '').startswith(v + '.subproof'):
+                            descends = True
+                res.add('%s :: %s :: citation-rewrite(%s)' % (rel, f.qualname, itp), descends,
+                        'each item\'s subproof is traversed too' if descends else
+                        'the loop rewrites `%s.prevs` of the items of one level only: a step inside a later subproof that cites the '
+                        'replaced line keeps the stale identifier' % v, '%s:%d' % (rel, loop.lineno))
+    return res
+
+
 def rules(repo):
-    return [rule_a1(repo), rule_a2(repo), rule_a3(repo), rule_a4(repo), rule_a5(repo), rule_a6(repo)]
+    return [rule_a1(repo), rule_a2(repo), rule_a3(repo), rule_a4(repo), rule_a5(repo), rule_a6(repo), rule_a7(repo)]
